@@ -165,6 +165,13 @@ theorem encrypt_decrypt_file_partial (c : Cipher) (hc : c.Lawful) (isStd : List 
 
 deriving instance DecidableEq for Except
 
+/-- *interoperability parameters*: the ECMA-376 standard-encryption constants `Encrypt` and
+`standardDecrypt` use (spin count 50000, AES-128, 16-byte blocks, 8-byte length prefix), and the two
+sides agree on prefix and block size. -/
+theorem standard_parameters :
+    iterCount = 50000 ∧ encBlock = 16 ∧ encKeyBits = 128 ∧ encPrefix = 8 ∧ decOffset = encPrefix ∧
+    decPrefix = encPrefix ∧ decBlock = encBlock ∧ packageOffset = 8 := by decide
+
 /-! non-vacuity -/
 
 /-- a lawful cipher exists (the hypotheses of `encrypt_decrypt_package` are satisfiable) -/
